@@ -491,6 +491,19 @@ func c19WritersAndChains(r *Run) {
 			c19One(r, txt, "  ", n%3, fmt.Sprintf("nested-quantifiers-%d", n))
 		}
 	}
+	// (c) depth: lines that belong beyond the 64th, 128th, 256th level - long chains from level 0, small trees from a high start level
+	for _, n := range []int{63, 64, 65, 66, 70, 127, 129, 200, 257, 300} {
+		var terms []string
+		for i := 0; i < n; i++ {
+			terms = append(terms, fmt.Sprintf("f%d == %d", i, i))
+		}
+		c19One(r, strings.Join(terms, pick(NewRng(uint64(n)), []string{" and ", " or "})), pick(NewRng(uint64(n+1)), []string{" ", "  ", "\t"}), n%2, fmt.Sprintf("deep-chain-%d", n))
+	}
+	for _, lvl := range []int{62, 63, 64, 65, 100, 127, 128, 255, 256, 1000, 4096} {
+		for _, txt := range []string{"a == 1 or not b is empty", "any xs as k, v { v.x == 1 and k != zz }", "a in b"} {
+			c19One(r, txt, pick(NewRng(uint64(lvl)), []string{" ", "  ", "ab"}), lvl, fmt.Sprintf("start-level-%d|%s", lvl, txt))
+		}
+	}
 }
 
 func c19One(r *Run, txt, ind string, lvl int, key string) {
